@@ -1188,8 +1188,7 @@ class Console:
                 Console default. Defaults to ``None``.
         """
         if not objects:
-            self.line()
-            return
+            objects = ("",)
 
         if soft_wrap is None:
             soft_wrap = self.soft_wrap
